@@ -216,12 +216,76 @@ fn exec_tok(fields: &[&str]) -> String {
     }
 }
 
+/// a history of API calls on one context (handles are reported as creation ordinals)
+pub fn run_history(kind: &str, calls: &[&str], mut observe: impl FnMut(&dyn Context, &[OpHandle]) -> Option<String>) -> (Vec<String>, Option<String>) {
+    let spec = CtxSpec { kind: kind.to_string(), resources: vec![], users: vec![] };
+    with_ctx(&spec, |ctx| {
+        let mut handles: Vec<OpHandle> = vec![];
+        let mut outs = vec![];
+        for call in calls {
+            let parts: Vec<&str> = call.split('|').collect();
+            let out = match parts.as_slice() {
+                ["R", n, t] => {
+                    if let Some(c) = user_ctor(t) {
+                        ctx.register_op(&unescape(n), c);
+                    }
+                    "-".to_string()
+                }
+                ["S", n, b] => {
+                    ctx.register_resource(&unescape(n), &unescape(b));
+                    "-".to_string()
+                }
+                ["O", d] => match ctx.op(&unescape(d)) {
+                    Ok(h) => {
+                        handles.push(h);
+                        format!("h{}", handles.len() - 1)
+                    }
+                    Err(e) => format!("err {}", err_class(&e)),
+                },
+                ["A", h, dir, data] => {
+                    let k: usize = h.parse().unwrap_or(usize::MAX);
+                    let handle = handles.get(k).copied().unwrap_or_default();
+                    let mut d = parse_data(data);
+                    match ctx.apply(handle, dir_of(dir), &mut d) {
+                        Ok(n) => format!("n={} data={}", n, dump_data(&d)),
+                        Err(e) => format!("err {}", err_class(&e)),
+                    }
+                }
+                ["T", h] => {
+                    let k: usize = h.parse().unwrap_or(usize::MAX);
+                    let handle = handles.get(k).copied().unwrap_or_default();
+                    match ctx.steps(handle) {
+                        Ok(l) => dump_list(l),
+                        Err(e) => format!("err {}", err_class(&e)),
+                    }
+                }
+                ["P", h, i] => {
+                    let k: usize = h.parse().unwrap_or(usize::MAX);
+                    let handle = handles.get(k).copied().unwrap_or_default();
+                    match ctx.params(handle, i.parse().unwrap_or(0)) {
+                        Ok(p) => dump_parsed(&p),
+                        Err(e) => format!("err {}", err_class(&e)),
+                    }
+                }
+                _ => "bad-call".to_string(),
+            };
+            outs.push(out);
+            if let Some(problem) = observe(ctx, &handles) {
+                return (outs, Some(problem));
+            }
+        }
+        (outs, None)
+    })
+}
+
 /// the implementation's answer to one case line
 pub fn exec_line(line: &str) -> String {
     let fields: Vec<&str> = line.split('\t').collect();
     match fields[0] {
         "OP" => exec_op(&fields[1..]),
         "TOK" => exec_tok(&fields[1..]),
+        "HIST" => run_history(fields[1], &fields[2..], |_, _| None).0.join(" ;; "),
+        "REG" => exec_reg(&fields[1..]),
         "PROJ" => match parse_proj(&unescape(fields.get(1).unwrap_or(&""))) {
             Ok(r) => format!("ok {}", escape(&r)),
             Err(e) => format!("err {}", err_class(&e)),
@@ -229,4 +293,26 @@ pub fn exec_line(line: &str) -> String {
         k if k.starts_with("S_") => crate::oracles::exec_oracle(k, &fields[1..]),
         _ => "bad-case".to_string(),
     }
+}
+
+/// Plain's register look-up on a register file written for this case (under $XDG_DATA_HOME)
+pub fn with_register<T>(content: &str, f: impl FnOnce(&Plain) -> T) -> T {
+    let dir = std::path::PathBuf::from(format!("/var/tmp/gv-reg-{}", std::process::id()));
+    let res = dir.join("geodesy").join("resources");
+    let _ = std::fs::create_dir_all(&res);
+    let _ = std::fs::write(res.join("gvreg.md"), content);
+    std::env::set_var("XDG_DATA_HOME", &dir);
+    let ctx = Plain::default();
+    let out = f(&ctx);
+    let _ = std::fs::remove_dir_all(&dir);
+    out
+}
+
+fn exec_reg(fields: &[&str]) -> String {
+    let content = unescape(fields[0]);
+    let suffix = unescape(fields[1]);
+    with_register(&content, |ctx| match ctx.get_resource(&format!("gvreg:{suffix}")) {
+        Ok(t) => format!("ok {}", escape(&t)),
+        Err(_) => "none".to_string(),
+    })
 }
